@@ -66,7 +66,8 @@ P("C03", [("V5", None), ("V20", None), ("V25", None)],
   "binders, substitution, constraints and ambiguity flag unchanged and no delayed subgoals (answers awaiting refinement are never yielded), that next_answer strictly advances the "
   "index (an index is handed out at most once) and that QuantumExceeded is only reported when the caller's callback returned false. On the verbatim text of "
   "merge_answer_into_strand it proves that consuming answer k of a positive subgoal queues, on the table being evaluated and right behind what was queued, a copy of the strand asking for answer k+1 "
-  "(unless the answer is the trivial substitution or was set aside as ambiguous), that nothing else is queued, that no stored answer changes, and that merging an ambiguous answer marks the strand ambiguous. "
+  "(unless the answer is the trivial substitution or was set aside as ambiguous), that nothing else is queued, that no stored answer changes, and that merging an ambiguous answer marks the strand ambiguous; "
+  "on the verbatim text of on_positive_cycle that a strand which ran into a positive cycle is handed back to the queue of the table being evaluated, whatever the state of the table it waits for, and nothing else changes. "
   "On the real Table struct (real Vec / VecDeque, hash map abstract) it proves that push_answer publishes an answer exactly when no answer with the same canonical substitution was published before, "
   "returns its index, keeps 'published answers pairwise differ in their substitution' invariant, and that answer(i) / next_answer_index / enqueue_strand are what the other units assume. "
   "Unbounded, partial correctness.",
